@@ -28,7 +28,9 @@ Bases == {Base, [Base EXCEPT !.v4over6 = TRUE, !.a6 = "1"], [Base EXCEPT !.a4 = 
           [Base EXCEPT !.a4 = "0", !.a6 = "fill", !.room = "p3"], [Base EXCEPT !.a4 = "0", !.w6 = "fill", !.room = "p3"],
           [Base EXCEPT !.a4 = "fill", !.room = "p1"],
           \* room for an MP_REACH_NLRI carrying the short IPv6 prefix (/16) but not the /48 which follows it
-          [Base EXCEPT !.a4 = "0", !.a6 = "3", !.room = "k29"]}
+          [Base EXCEPT !.a4 = "0", !.a6 = "3", !.room = "k29"],
+          \* attributes leaving less room than one prefix, an announce which therefore cannot be sent -- and withdraws, which need no attribute
+          [Base EXCEPT !.a4 = "1", !.w4 = "1", !.room = "k1"], [Base EXCEPT !.a4 = "1", !.w6 = "2", !.room = "k0"]}
 Fields == DOMAIN Base
 Plenty == {"large", "ext255", "ext256", "p1", "p2", "p3", "p4", "p5", "p6"}
 WellFormed(c) == (c.v4over6 => c.a4 # "0" /\ c.room \in {"large", "ext255", "ext256"})
